@@ -227,10 +227,31 @@ def check_batch(args) -> Dict[str, Any]:
     d = core.scratch_dir("c04")
 
     def bad(kind, **kw):
+        if named and named.startswith("shared:") and kw.get("lang") == "python" and kw.get("name") == "GATEWAY":
+            # one root cause whatever the other table is: the Python module has ONE global per name (host ids carry no prefix there)
+            kw = dict(kw, seen_as=kind, other_table=named.split(":")[1])
+            kind = "python-name-bound-twice"
         problems.append({"kind": kind, "batch": bi, **({"rebuild": True} if rebuild else {}), **kw})
 
     try:
-        if named:
+        if named and named.startswith("shared:"):
+            # one name in two TABLES of one file (the parser keeps host / module ids apart from constants, strings, aliases and
+            # structs): every output keeps both values apart
+            kind = named.split(":")[1]
+            secs = {"host_ids": {"GATEWAY": 20}, "module_ids": {"GATEWAY": 30}, "message_defs": {"M_SHARED": {"id": 6000, "fields": {"a": "int32", "b": "int16[3]"}}}}
+            if kind == "constant":
+                secs["constants"] = {"GATEWAY": 5}
+            elif kind == "string":
+                secs["string_constants"] = {"GATEWAY": "gw"}
+            elif kind == "alias":
+                secs["aliases"] = {"GATEWAY": "int16"}
+                secs["message_defs"]["M_SHARED"]["fields"]["g"] = "GATEWAY"
+            else:
+                secs["struct_defs"] = {"GATEWAY": {"fields": {"x": "int32"}}}
+                secs["message_defs"]["M_SHARED"]["fields"]["g"] = "GATEWAY"
+            prog = defx.Program({"root.yaml": secs})
+            meta = {}
+        elif named:
             # a field carries a name the generated classes use themselves: the file is either refused, or - when accepted - described
             # identically by all outputs like any other
             prog = defx.Program({"root.yaml": {"struct_defs": {"SB_NAMED": {"fields": {"a": "int8", named: "double"}}},
@@ -400,7 +421,8 @@ def run(tier: str) -> int:
     batches = [(i, b) for i, b in enumerate(core.chunks(core.shuffled(seqs, "c04"), 250))]
     multi = [b for b in batches if SHAPES[b[0] % len(SHAPES)] != "single"]
     rebuilds = [(i, b, "rebuild") for i, b in (multi[:4] if tier == "quick" else multi)]
-    names = [(9000 + i, [], "named", n) for i, n in enumerate(("type_id", "type_name", "type_hash", "type_source", "type_def", "type_size", "hexdump", "size_type"))]
+    names = [(9100 + i, [], "named", "shared:" + k) for i, k in enumerate(("constant", "string", "alias", "struct"))]
+    names += [(9000 + i, [], "named", n) for i, n in enumerate(("type_id", "type_name", "type_hash", "type_source", "type_def", "type_size", "hexdump", "size_type"))]
     res = core.pmap(check_batch, batches + rebuilds + names)
     core.close_pool()
     totals: Dict[str, int] = {}
